@@ -519,6 +519,13 @@ impl Model {
     }
 
     fn complete_uninstrumented(&mut self, at: usize, h: Hid) {
+        // a right-hand side built on an invalid node is invalid as soon as it is linked; the
+        // engine then recomputes the bind's main node to make it invalid too
+        if matches!(self.nodes[h].rk, RK::Bind { .. }) {
+            if let Some(r) = self.nodes[h].rhs {
+                self.spread_invalidity(r);
+            }
+        }
         let n = &self.nodes[h];
         let new: Option<MV> = match &n.rk {
             RK::Var { vid, .. } => Some(self.vars[*vid].value),
